@@ -796,7 +796,8 @@ def gen_plan(seed: int, mode: str, scale: int = 1):
     # tuning knob of the simulated world, drawn per run: the file system's preferred block size
     # = the size of CPython's buffer above the raw file (how many write(2) calls a file takes,
     # where a torn write can end, how much a kill loses)
-    img["blksize"] = Rng(seed, "env", "blksize").choice([64, 512, 4096, 4096, 4096, 65536])
+    img["blksize"] = Rng(seed, "env", "blksize").choice([512, 512, 4096, 4096, 4096, 65536])
+    img["dir_order"] = Rng(seed, "env", "dirorder").choice([0, 1, 2, 3])
     img["recycle_inodes"] = Rng(seed, "env", "recycle").chance(0.5)
     plan = {
         "world": "compiler",
